@@ -2,15 +2,22 @@
 //! clock, hook points and transport) and E (real TopologyManager / Behaviour glue over a bus).
 
 mod c08;
+mod c10;
 mod c12;
 mod c14;
 mod driver;
+mod node;
 mod sim;
 mod util;
 
 use serde_json::Value;
 use simcore::runner::{Engine, Tier};
 use simcore::{PropertyInfo, RunOutcome};
+
+const C10_RULE: &str = "per run N in 2..5 real ClusterActors (rf 1..5 <= N) that learn membership from their own heartbeat/ownership gossip, and a PRNG sequence of client transactions (single and multi-event, 1-3 partition keys so writes contend) sent to arbitrary nodes, time advances (1 ms .. 11 s, past write and buffer timeouts), silent link cuts, isolated nodes, crashes and restarts with surviving disks; every remote message (ExecuteTransaction forwards, ReplicateWrite, ConfirmTransaction, PartitionSyncRequest, replies) gets a fate from a content-keyed PRNG: delay, straggler delay up to 15 s, loss (network timeout after 10 s), duplication, unreachable peer. After every operation and after faults stop (+32 s): every node's partition logs are read back; C10: logs gapless, at most one transaction ever seen with a quorum confirmation count per (partition, sequence) across nodes and time, confirmed prefixes of any two nodes agree event for event; C11: every write acknowledged to its client sits whole at its acknowledged sequences on at least a quorum of nodes and carries a quorum count on its coordinator, at that check and every later one. Non-trivial = N>=3, rf>=2, at least one fault fired and at least two acknowledged writes.";
+const CLUSTER_REAL: &[&str] = &["sierradb_cluster::ClusterActor (execute/route/forward, transaction::run, ReplicateWrite sender+staleness checks, ConfirmTransaction, PartitionSyncRequest, read handlers)", "PartitionReplicatorActor, ConfirmationActor, SubscriptionManager", "sierradb_topology::Behaviour + TopologyManager inside each actor's libp2p Swarm (heartbeat/timeout intervals run)", "sierradb::Database per node", "kameo actors, mailboxes, serialisation of every remote message (rmp_serde) and the generated inbound dispatch functions", "tokio paused clock"];
+const CLUSTER_STUB: &[&str] = &["kameo's libp2p swarm command channel (vendored kameo with a seam: the simulator carries the serialised messages)", "gossipsub propagation (simulated bus)", "TCP/noise/yamux transports are constructed but never connect"];
+const CLUSTER_ASSUME: &[&str] = &["a lost request or reply surfaces as NetworkTimeout after 10 s, an unreachable peer as DialFailure, as in kameo's request-response configuration"];
 
 struct ClusterSimEngine;
 
@@ -29,6 +36,24 @@ impl Engine for ClusterSimEngine {
             real_components: &["sierradb_cluster::confirmation::BucketConfirmationManager / PartitionConfirmationState / AtomicWatermark", "sierradb::Database (set_confirmations, read_partition)", "tokio::fs on the blocking pool (awaited)"],
             stub_components: &["ConfirmationActor mailbox (the manager is driven directly)", "wall/monotonic clock (simulated through the hook shim)"],
             assumptions: &["deliveries follow ConfirmTransaction's order: on-disk count first, then the update"],
+        }, PropertyInfo {
+            id: "C10",
+            level: "exploration",
+            rule: C10_RULE,
+            quick_runs: 400,
+            thorough_runs: 12000,
+            real_components: CLUSTER_REAL,
+            stub_components: CLUSTER_STUB,
+            assumptions: CLUSTER_ASSUME,
+        }, PropertyInfo {
+            id: "C11",
+            level: "exploration",
+            rule: C10_RULE,
+            quick_runs: 400,
+            thorough_runs: 12000,
+            real_components: CLUSTER_REAL,
+            stub_components: CLUSTER_STUB,
+            assumptions: CLUSTER_ASSUME,
         }, PropertyInfo {
             id: "C12",
             level: "exploration",
@@ -53,6 +78,7 @@ impl Engine for ClusterSimEngine {
     fn plan(prop: &str, tier: Tier, run_seed: u64) -> Value {
         match prop {
             "C08" => c08::plan(tier, run_seed),
+            "C10" | "C11" => c10::plan(tier, run_seed),
             "C12" => c12::plan(tier, run_seed),
             "C14" => c14::plan(tier, run_seed),
             _ => unreachable!(),
@@ -62,6 +88,7 @@ impl Engine for ClusterSimEngine {
     fn execute(prop: &str, plan: &Value) -> RunOutcome {
         match prop {
             "C08" => c08::execute(plan),
+            "C10" | "C11" => c10::execute(prop, plan),
             "C12" => c12::execute(plan),
             "C14" => c14::execute(plan),
             _ => unreachable!(),
